@@ -62,7 +62,7 @@ func init() {
 		}
 		props[id] = c
 	}
-	def("C01", propCfg{QuickShards: 2, ThoroughShard: 12, Level: "fault_enumeration", Fuzz: []fuzzCfg{{"FuzzDecode", 240}}})
+	def("C01", propCfg{QuickShards: 4, ThoroughShard: 12, Level: "fault_enumeration", Fuzz: []fuzzCfg{{"FuzzDecode", 240}}})
 	def("C02", propCfg{QuickShards: 2, ThoroughShard: 12, Fuzz: []fuzzCfg{{"FuzzTerminate", 180}}})
 	def("C03", propCfg{QuickShards: 2, ThoroughShard: 12})
 	def("C04", propCfg{QuickShards: 2, ThoroughShard: 12})
@@ -145,7 +145,7 @@ func main() {
 		}
 		c := exec.Command(bin, "-test.run", "^TestReplay$", "-test.count=1", "-test.timeout", "10m")
 		c.Dir = pkgDir
-		c.Env = append(env, "VERIF_REPLAY="+rp, "VERIF_SHARD=0", "VERIF_SHARDS=1", "VERIF_PARTS_DIR="+filepath.Join(build, "parts-replay"))
+		c.Env = append(append([]string{}, env...), "VERIF_REPLAY="+rp, "VERIF_SHARD=0", "VERIF_SHARDS=1", "VERIF_PARTS_DIR="+filepath.Join(build, "parts-replay"))
 		out, err := c.CombinedOutput()
 		os.Stdout.Write(out)
 		if bytes.Contains(out, []byte("\nVIOLATION property=")) {
@@ -182,7 +182,7 @@ func main() {
 			defer wg.Done()
 			c := exec.Command(bin, "-test.run", "^TestProp$", "-test.count=1", "-test.timeout", timeout.String(), "-test.v=false")
 			c.Dir = pkgDir
-			c.Env = append(env, "VERIF_SHARD="+strconv.Itoa(s), "VERIF_SHARDS="+strconv.Itoa(shards), "VERIF_PARTS_DIR="+parts,
+			c.Env = append(append([]string{}, env...), "VERIF_SHARD="+strconv.Itoa(s), "VERIF_SHARDS="+strconv.Itoa(shards), "VERIF_PARTS_DIR="+parts,
 				"GORACE=halt_on_error=0 exitcode=66")
 			out, err := c.CombinedOutput()
 			results[s] = res{out, err}
@@ -275,7 +275,7 @@ func runFuzz(env []string, ID, pkgDir string, fz fuzzCfg) (map[string]any, bool,
 	c := exec.Command("go", "test", "-tags", "verif", "-vet=off", "-run", "^$", "-fuzz", "^"+fz.Target+"$",
 		"-fuzztime", fmt.Sprintf("%ds", fz.Secs), "-test.fuzzcachedir", cache, "-timeout", fmt.Sprintf("%ds", fz.Secs+600), ".")
 	c.Dir = pkgDir
-	c.Env = append(env, "VERIF_FUZZ=1")
+	c.Env = append(append([]string{}, env...), "VERIF_FUZZ=1")
 	out, err := c.CombinedOutput()
 	execs := int64(0)
 	sc := bufio.NewScanner(bytes.NewReader(out))
